@@ -156,6 +156,7 @@ struct RecPages : public ::babylon::PageAllocator {
       }
       n_free.fetch_add(1, std::memory_order_relaxed);
       memset(p, 0xDD, ps);
+      asm volatile("" : : "r"(p) : "memory");  // keep the poison store (dead-store elimination before free)
       ::free(p);
     }
   }
@@ -220,6 +221,7 @@ struct RecUpstream : public ::std::pmr::memory_resource {
                    name, p, e.bytes, e.align, bytes, alignment));
     }
     memset(p, 0xDE, e.bytes);
+    asm volatile("" : : "r"(p) : "memory");
     ::operator delete(p, ::std::align_val_t(e.align ? e.align : 1));
   }
   bool do_is_equal(const memory_resource& o) const noexcept override { return this == &o; }
@@ -602,16 +604,11 @@ void run_excl(uint64_t seed, uint64_t e) {
   int cur = 0;
   // bias: some episodes are allocation storms of near-page requests (page-array turnover)
   unsigned storm = unsigned(r.below(3));
-  for (uint64_t op = 0; op < nops && !vf::failed(); ++op) {
+  auto alloc_one = [&](Req q, bool allow_obj) -> bool {
     Handle& H = h[cur];
     Excl& R = *H.res;
     size_t ps = H.c.pages->ps;
-    g_owner = H.c.owner;
-    uint64_t k = r.below(100);
-    if (storm == 2 && k >= 62 && k < 86 && r.chance(1, 2)) k = 0;
-    if (k < 62) {
-      Req q = draw_req(r, ps, H.c.upstream_recorded);
-      bool want_obj = q.bytes >= sizeof(ObjHeader) + 4 && q.align >= 8 && r.chance(1, 6);
+      bool want_obj = allow_obj && q.bytes >= sizeof(ObjHeader) + 4 && q.align >= 8 && r.chance(1, 6);
       Snap b = snap(R);
       const char* how = "";
       char* p = excl_allocate(R, r, q.bytes, q.align, &how);
@@ -619,7 +616,7 @@ void run_excl(uint64_t seed, uint64_t e) {
       classify_alloc(R, b, p, q.bytes, q.align, ps, st);
       st.h = vf::mix(st.h, q.bytes, q.align, uint64_t(cur));
       H.c.sum_bytes += q.bytes;
-      if (!check_result(how, p, q.bytes, q.align)) continue;
+      if (!check_result(how, p, q.bytes, q.align)) return !vf::failed();
       Block blk {p, uint32_t(q.bytes), uint32_t(q.align), vf::mix(seed, e, ++tagc), nullptr};
       if (want_obj) {
         blk.obj = new Dtor;
@@ -634,7 +631,7 @@ void run_excl(uint64_t seed, uint64_t e) {
                vf::fmt("%s(bytes=%zu, align=%zu) returned %p, which lies neither inside a live page of the resource's page "
                        "allocator (page size %zu) nor inside a live oversize block of its upstream", how, q.bytes, q.align,
                        (void*)p, ps));
-          break;
+          return false;
         }
         if (in_page) VF_COUNT("obs:blocks_in_pages"); else VF_COUNT("obs:blocks_oversize");
       }
@@ -649,6 +646,35 @@ void run_excl(uint64_t seed, uint64_t e) {
         oplog(vf::fmt("res%d.register_destructor(object in %p)", H.c.owner, (void*)p));
       }
       vf::progress();
+      return true;
+  };
+  for (uint64_t op = 0; op < nops && !vf::failed(); ++op) {
+    Handle& H = h[cur];
+    Excl& R = *H.res;
+    size_t ps = H.c.pages->ps;
+    g_owner = H.c.owner;
+    uint64_t k = r.below(100);
+    if (storm == 2 && k >= 62 && k < 86 && r.chance(1, 2)) k = 0;
+    if (k < 62) {
+      Req q = draw_req(r, ps, H.c.upstream_recorded);
+      // Boundary steering: when the current page array is full, the next new page decides between
+      // the three placements of a new PageArray by the space left in the old page (>= sizeof(PageArray)
+      // after alignment?) and by bytes + sizeof(PageArray) <= page size. Leave exactly kk bytes, then
+      // ask for more than kk.
+      bool array_full = R._last_page_array != nullptr && R._last_page_pointer == R._last_page_array->pages;
+      if (array_full && R._free_begin != nullptr && R._free_end > R._free_begin && r.chance(1, 2)) {
+        size_t rem = size_t(R._free_end - R._free_begin);
+        size_t kk = r.pick<size_t>({0, 1, 7, 8, 112, 119, 120, 121, 127, 128, 129, 135, 136, 143, 144});
+        if (rem > kk) {
+          VF_COUNT("obs:page_array_boundary_steered");
+          if (rem - kk > 0 && !alloc_one(Req {rem - kk, 1}, false)) continue;
+          size_t lo = kk + 1, hi = ps;
+          size_t b2 = lo >= hi ? hi : size_t(r.range(lo, hi));
+          if (r.chance(1, 2)) b2 = std::min<size_t>(hi, std::max<size_t>(lo, ps - sizeof(Excl::PageArray) + 8 - r.below(17)));
+          q = Req {b2, size_t(1) << r.below(5)};
+        }
+      }
+      alloc_one(q, true);
     } else if (k < 72) {
       uint64_t n = r.range(1, 6);
       for (uint64_t i = 0; i < n; ++i) {
@@ -703,10 +729,10 @@ void run_excl(uint64_t seed, uint64_t e) {
     } else if (k < 86) {
       verify_content(R, H.c, U, true, "mid-history");
       oplog(vf::fmt("verify res%d (%zu blocks)", H.c.owner, H.c.blocks.size()));
-    } else if (k < 90) {
+    } else if (k < 88) {
       excl_release(H, U, &U, r, "op");
       st.h = vf::mix(st.h, 0x4e1);
-    } else if (k < 92) {
+    } else if (k < 89) {
       verify_content(R, H.c, U, true, "before destruction");
       if (vf::failed()) break;
       g_release_window = true;
@@ -719,7 +745,7 @@ void run_excl(uint64_t seed, uint64_t e) {
       H.res->set_upstream(U);
       H.c.upstream_recorded = true;
       VF_COUNT("obs:destroy_recreate");
-    } else if (k < 95) {
+    } else if (k < 93) {
       // move-assign: the two resources swap everything they own. Both use the same upstream
       // object here (operator= does not carry the upstream along: mode `probes`).
       Handle& O = h[1 - cur];
@@ -733,7 +759,7 @@ void run_excl(uint64_t seed, uint64_t e) {
         verify_content(*O.res, O.c, U, true, "after move-assign (source)");
         st.h = vf::mix(st.h, 0x30fe);
       }
-    } else if (k < 97) {
+    } else if (k < 96) {
       // move-construct; only while the source owns no oversize block (the target does not
       // inherit the upstream: mode `probes`). Until its next release the target is not asked
       // for oversize blocks.
